@@ -13,7 +13,7 @@ VARIABLES l, bad
 vars == <<l, bad>>
 
 Crashed(e) == e.out.kind \in {"fatal", "timeout", "oom"}
-McCfg(e) == [protoTime |-> e.cfg.protoTime, protoArrays |-> e.cfg.protoArrays, nullProto |-> FALSE, flatUnsigned |-> FALSE, timeAsZigZag |-> FALSE]
+McCfg(e) == [protoTime |-> e.cfg.protoTime, protoArrays |-> e.cfg.protoArrays, nullProto |-> FALSE, flatUnsigned |-> FALSE, timeAsZigZag |-> FALSE, marker |-> "none"]
 
 \* ---- C01: value round trip ----
 JudgeC01(e, cfg, T) ==
